@@ -10,7 +10,7 @@
     Graphs: node ids pairwise distinct ([NoDup (node_ids g)], guaranteed by networkx); adjacency is symmetric by
     construction ([LGraph.adj]). *)
 From Coq Require Import List NArith ZArith Bool Arith Permutation Sorted.
-From SK Require Import lib.LGraph model.C12_Model proof.C12_Search proof.C12_Proof proof.C12_Prune proof.C12_Enum proof.C12_Sorted.
+From SK Require Import lib.LGraph model.C12_Model proof.C12_Search proof.C12_Proof proof.C12_Prune proof.C12_Enum proof.C12_Sorted proof.C12_Component.
 Import ListNotations.
 
 (** ** 0. the specification: a common induced sub-graph mapping, written out.
@@ -279,3 +279,37 @@ Theorem C12_result_order_meaning :
   result_ltb a b = true <-> length b < length a \/ (length a = length b /\ items_ltb a b = true).
 Proof. exact result_ltb_meaning. Qed.
 Print Assumptions C12_result_order_meaning.
+
+(** ** 12. component-wise mode, find_rc_mapping(side='its', component=True) (model [find_rc_component]: connected
+    components in node order, stable sort by size, largest with largest, first mapping of every sorted local result,
+    combined by dict.update).  On graphs whose edges join their own nodes: the call returns exactly one mapping,
+    reported G1 -> G2; it is a common induced mapping of the two (pruned) graphs -- injective, label-preserving,
+    presence and order of every bond between mapped atoms preserved both ways, also ACROSS components -- and its
+    inverse is one for (G2, G1). *)
+Theorem C12_component_valid :
+  forall (defs : list N) (prune : bool) (wc : N) (g1 g2 : graph) (mcs : bool),
+  NoDup (node_ids g1) -> NoDup (node_ids g2) ->
+  (forall a b x, In (a, b, x) (gedges g1) -> In a (node_ids g1) /\ In b (node_ids g1)) ->
+  (forall a b x, In (a, b, x) (gedges g2) -> In a (node_ids g2) /\ In b (node_ids g2)) ->
+  (forall m, In m (get_mappings G1toG2 (find_rc_component defs prune wc g1 g2 mcs)) ->
+     common_induced (node_match defs) edge_match (prune_graph prune wc g1) (prune_graph prune wc g2) m /\
+     length m = r_last (find_rc_component defs prune wc g1 g2 mcs)) /\
+  (forall m, In m (get_mappings G2toG1 (find_rc_component defs prune wc g1 g2 mcs)) ->
+     common_induced (node_match defs) edge_match (prune_graph prune wc g2) (prune_graph prune wc g1) m) /\
+  length (get_mappings G1toG2 (find_rc_component defs prune wc g1 g2 mcs)) = 1.
+Proof. exact component_valid. Qed.
+Print Assumptions C12_component_valid.
+
+(** the component list ([components], the model of nx.connected_components by the saturation closure of lib/Reach.v):
+    every component consists of nodes and is closed under adjacency, different components are disjoint, every node
+    lies in one *)
+Theorem C12_components_partition :
+  forall g : graph,
+  (forall a b x, In (a, b, x) (gedges g) -> In a (node_ids g) /\ In b (node_ids g)) ->
+  (forall c, In c (components g) -> incl c (node_ids g) /\
+                                   forall x v e, In x c -> LGraph.adj g x v = Some e -> In v c) /\
+  (forall i j, i < j -> j < length (components g) ->
+               forall x, In x (nth i (components g) []) -> ~ In x (nth j (components g) [])) /\
+  (forall u, In u (node_ids g) -> exists c, In c (components g) /\ In u c).
+Proof. exact components_partition. Qed.
+Print Assumptions C12_components_partition.
